@@ -108,7 +108,8 @@ pub fn random_polygon(rng: &mut Rng) -> (String, Vec<(i64, i64)>) {
     match rng.below(4) {
         0 | 1 => {
             // double histogram: columns with bottom < top; a rectilinear polygon with U-, L- and comb shapes
-            let cols = rng.range(2, 14);
+            // one polygon in six is LONG (40..320 vertices): anything that works on blocks or windows of vertices meets its seams
+            let cols = if rng.chance(1, 6) { rng.range(20, 80) } else { rng.range(2, 14) };
             let mut xs = vec![rng.range(-50, 50)];
             for _ in 0..cols { let l = *xs.last().unwrap(); xs.push(l + rng.range(1, 9)); }
             let base = rng.range(-40, 40);
@@ -178,7 +179,7 @@ fn contains_random(case: &Value) -> Value {
             qs.push((x0 + rng.below((x1 - x0 + 1) as u64) as i64, a.1));
         }
         while (qs.len() as i64) < nq { qs.push((rng.range(x0 - 2, x1 + 2), rng.range(y0 - 2, y1 + 2))); }
-        qs.truncate(nq as usize);
+        qs.truncate((nq as usize).max(7 * n));      // every vertex keeps its own queries, however long the polygon
         let answers: Vec<i64> = qs.iter().map(|q| poly.contains(&Point::new(q.0 as isize, q.1 as isize)) as i64).collect();
         events.push(json!({"kind": kind, "poly": pts.iter().map(|p| vec![p.0, p.1]).collect::<Vec<_>>(),
                            "qs": qs.iter().map(|p| vec![p.0, p.1]).collect::<Vec<_>>(), "ans": answers}));
